@@ -775,7 +775,9 @@ impl<'a> UdpNhcRepr {
                 checksum::data(packet.payload_mut()),
             ]);
 
-            packet.set_checksum(chk_sum);
+            // UDP over IPv6 cannot do without a checksum, and zero means "none": a checksum
+            // that computes to zero is transmitted as all ones (RFC 768, RFC 8200).
+            packet.set_checksum(if chk_sum == 0 { 0xffff } else { chk_sum });
         }
     }
 }
